@@ -221,7 +221,30 @@ func H_life_r() {
 	o := hReadOpts()
 	frame, in, _ := hMakeFrameOpts(o)
 	trail := vfBytes("trail", vfParam("trail"))
-	mk := func() *hSource { return &hSource{data: append(append([]byte{}, frame...), trail...), failAt: -1} }
+	// a second frame with the same content but the content-size option toggled: Reset alternates
+	// between the two, so that nothing of the previous frame's header may survive a Reset
+	o2 := o
+	if o.sizeopt != 0 {
+		o2.sizeopt, o2.size = 0, 0
+	} else {
+		o2.sizeopt, o2.size = 1, 77
+	}
+	var sink2 hSink
+	sink2.failAt = -1
+	zw2 := NewWriter(&sink2)
+	vfAssume(zw2.Apply(o2.options()...) == nil)
+	vfAssume(hDeliver(zw2, in, vfParam("deliv"), vfParam("k")))
+	frame1 := frame
+	frame2 := sink2.buf
+	o1 := o
+	which := 0
+	mk := func() *hSource {
+		f := frame1
+		if which == 1 {
+			f = frame2
+		}
+		return &hSource{data: append(append([]byte{}, f...), trail...), failAt: -1}
+	}
 	src := mk()
 	zr := NewReader(src)
 	delivered := 0
@@ -283,7 +306,13 @@ func H_life_r() {
 			if o.sizeopt == 0 {
 				vfAssert("r-size-zero-when-absent", sz == 0)
 			}
-		case 4: // Reset(new source)
+		case 4: // Reset(new source holding the other frame)
+			which = 1 - which
+			if which == 1 {
+				o = o2
+			} else {
+				o = o1
+			}
 			src = mk()
 			zr.Reset(src)
 			vfAssert("r-reset-no-access", src.pos == 0)
